@@ -99,7 +99,7 @@ def extra_tokens(music):
          ('DCS-macro-clr', E + b'P4;1;0!zX' + E + b'\\'), ('DCS-macro-p3', E + b'P4;0;7!zX' + E + b'\\'), ('DCS-nonum', E + b'P!zX' + E + b'\\'),
          ('DCS-macro-csi', E + b'P5;0;1!z1B5B3243' + E + b'\\'), ('DCS-macro-nest', E + b'P6;0;1!z1B5B352A7A' + E + b'\\'),
          ('INV1', E + b'[1*z'), ('INV2', E + b'[2*z'), ('INV5', E + b'[5*z'), ('INV6', E + b'[6*z'), ('INV9', E + b'[9*z'),
-         ('DCS-inv-inside', E + b'P7;0;0!zq' + E + b'[2*zr' + E + b'\\'), ('DCS-bad-inside', E + b'P' + E + b'[x' + E + b'\\'), ('DCS-esc', E + b'P' + E + b'Q' + E + b'\\'),
+         ('DCS-inv-inside', E + b'P7;0;0!zq' + E + b'[2*zr' + E + b'\\'), ('DCS-inv-nonum', E + b'P' + E + b'[*z' + E + b'\\'), ('DCS-inv-star2', E + b'P' + E + b'[1**z' + E + b'\\'), ('DCS-bad-inside', E + b'P' + E + b'[x' + E + b'\\'), ('DCS-esc', E + b'P' + E + b'Q' + E + b'\\'),
          ('DCS-sixel', E + b'Pq#0;2;0;0;0~-~' + E + b'\\'), ('DCS-sixel-bad', E + b'P0;1q"1;1;x' + E + b'\\'), ('DCS-unknown', E + b'Pzz' + E + b'\\'), ('DCS-open', E + b'P12'),
          ('OSC8-open', E + b']8;;http://x' + E + b'\\'), ('OSC8-close', E + b']8;;' + E + b'\\'), ('OSC4', E + b']4;1;rgb:aa/bb/cc' + E + b'\\'), ('OSC4-noidx', E + b']4;;rgb:00/00/00' + E + b'\\'),
          ('OSC4-big', E + b']4;999;rgb:00/00/00' + E + b'\\'), ('OSC-unknown', E + b']9;x' + E + b'\\'), ('OSC-empty', E + b']' + E + b'\\'), ('OSC-esc', E + b']8' + E + b'x'),
